@@ -1,4 +1,5 @@
 import XgcmModel.Model.Metrics
+import XgcmModel.Model.InterpLike
 /-
   C10 — The metric applied is the one registered for the array's position and axes.
   (Selection logic; the arithmetic of integrate / average / derivative / metric_weighted is
@@ -104,5 +105,55 @@ example :
     names (selectMetric [(["X"], [⟨"dx_t", ["xc"]⟩, ⟨"dx_u", ["xg"]⟩]), (["Y"], [⟨"dy_t", ["yc"]⟩])]
                  ["xg", "yc"] ["X", "Y"]) = some [("dx_u", false), ("dy_t", false)] := by
   decide +kernel
+
+/-! ### interp_like: how a metric that is not at the array's position gets there -/
+
+/-- **Every hop `interp_like` makes is one of the 8 centre<->face shifts**: an axis on which both arrays have a
+    dimension at different positions is moved directly when one of the two positions is the cell centre, and through
+    the centre (two hops) when both are cell faces — for every grid and every pair of dimension lists.  So the
+    interpolation of a misplaced metric is a composition of the stencil operations C01 verifies (with the rule
+    `get_metric` passes: "extend"). -/
+theorem interp_like_hops_are_valid_shifts {α : Type} (g : GridM α) (arrDims likeDims : List String)
+    (m : String × Pos × Pos) (hm : m ∈ interpLikeMoves g arrDims likeDims) :
+    m.2.1 ≠ m.2.2 ∧
+    (if m.1 ∈ viaCenter (interpLikeMoves g arrDims likeDims) ∧ m.2.1 ≠ .center ∧ m.2.2 ≠ .center
+     then validShift m.2.1 .center = true ∧ validShift .center m.2.2 = true
+     else (m.2.1 = .center ∨ m.2.2 = .center) → validShift m.2.1 m.2.2 = true) := by
+  obtain ⟨name, pa, pl⟩ := m
+  have hne : pa ≠ pl := by
+    unfold interpLikeMoves at hm
+    rw [List.mem_filterMap] at hm
+    obtain ⟨ax, _, hax⟩ := hm
+    split at hax
+    · rename_i a b _ _
+      split at hax
+      · rename_i hneq
+        simp only [Option.some.injEq, Prod.mk.injEq] at hax
+        obtain ⟨_, h1, h2⟩ := hax
+        subst h1; subst h2
+        intro e
+        simp [e] at hneq
+      · cases hax
+    · cases hax
+  refine ⟨hne, ?_⟩
+  split
+  · rename_i h
+    obtain ⟨_, h1, h2⟩ := h
+    constructor
+    · cases pa <;> simp_all [validShift]
+    · cases pl <;> simp_all [validShift]
+  · intro hc
+    cases pa <;> cases pl <;> simp_all [validShift]
+
+/-- the two-hop rule, spelled out -/
+theorem via_center_iff (moves : List (String × Pos × Pos)) (name : String) :
+    name ∈ viaCenter moves ↔ ∃ pa pl, (name, pa, pl) ∈ moves ∧ pa ≠ .center ∧ pl ≠ .center := by
+  unfold viaCenter
+  simp only [List.mem_map, List.mem_filter, Bool.and_eq_true, bne_iff_ne, ne_eq]
+  constructor
+  · rintro ⟨⟨n, pa, pl⟩, ⟨hmem, h1, h2⟩, rfl⟩
+    exact ⟨pa, pl, hmem, h1, h2⟩
+  · rintro ⟨pa, pl, hmem, h1, h2⟩
+    exact ⟨(name, pa, pl), ⟨hmem, h1, h2⟩, rfl⟩
 
 end Xgcm.C10
